@@ -278,9 +278,18 @@ func genBatch(r *vh.RNG, prefix string, nDialects int) *xmlBatch {
 				enums = append(enums, ei)
 			}
 			xe := ref.XEnum{Name: ei.name, Bitmask: ei.bitmask}
+			lowerNames := r.Chance(1, 6)
 			for _, en := range genEnumValues(r, 1+r.Intn(8), ei.bitmask, ei.taken) {
 				for {
 					en.Name = fmt.Sprintf("%s_%s%d", ei.name, msgWords[r.Intn(len(msgWords))], r.Intn(1000))
+					if lowerNames {
+						// entry names that do not begin with a capital (the schema does not demand one): the text of a value is the
+						// XML name, whatever the generator calls the Go constant
+						en.Name = strings.ToLower(en.Name[:1]) + en.Name[1:]
+						if r.Chance(1, 2) {
+							en.Name = strings.ToLower(en.Name)
+						}
+					}
 					if ns.take(en.Name) {
 						break
 					}
